@@ -532,7 +532,7 @@ fn gen_case(tier: Tier, k: u64, rng: &mut Rng) -> Case {
         case.tests = vec![T { cmd: Cmd::Chunks { chunks: vec![Chunk { fd: 1, data: p }] }, code: 0 }];
         return case;
     }
-    let fam = rng.weighted(&[22, 8, 26, 18, 12, 4, 5, 3, 2]);
+    let fam = rng.weighted(&[22, 8, 26, 18, 12, 4, 5, 3, 2, 6]);
     match fam {
         0 => {
             case.family = "render-direct".into();
@@ -626,6 +626,27 @@ fn gen_case(tier: Tier, k: u64, rng: &mut Rng) -> Case {
             for i in 0..n {
                 let cmd = if i == at { Cmd::Forge { exit_with: *rng.pick(&[0u8, 0, 5]) } } else { Cmd::Chunks { chunks: vec![Chunk { fd: 1, data: Payload::lit(b"real\n") }] } };
                 case.tests.push(T { cmd, code: 0 });
+            }
+        }
+        9 => {
+            // long single-script documents: two- and three-digit test indices with two- and
+            // three-digit exit codes in the divider lines; cheap commands (no process per test)
+            case.family = "cram-long".into();
+            case.mode = "cram".into();
+            case.strip = None;
+            let n = if rng.chance(1, 6) { rng.range(101, 105) } else { rng.range(11, 15) };
+            for i in 0..n {
+                let cmd = match rng.below(8) {
+                    0 => Cmd::Chunks { chunks: vec![Chunk { fd: 1 + rng.below(2) as u8, data: Payload::lit(format!("out {i}").as_bytes()) }] },
+                    1 => Cmd::Status { k: *rng.pick(&[0u8, 9, 99, 200]) },
+                    _ => Cmd::Literal { form: "printf".into(), text: format!("t{i}") },
+                };
+                let code = if i >= 10 && rng.chance(2, 3) {
+                    *rng.pick(&[100u8, 123, 127, 128, 200, 255])
+                } else {
+                    *rng.pick(&[0u8, 0, 1, 9, 10, 42, 99, 123, 255])
+                };
+                case.tests.push(T { cmd, code });
             }
         }
         _ => {
@@ -855,6 +876,12 @@ fn evidence(case: &Case) -> (bool, u64, Vec<String>) {
     }
     if case.tests.len() > 1 {
         b.push("sequence>1".into());
+    }
+    if case.tests.len() > 10 {
+        b.push("sequence>10".into());
+    }
+    if case.tests.len() > 100 {
+        b.push("sequence>100".into());
     }
     (nontrivial, shape, b)
 }
@@ -1284,6 +1311,8 @@ impl Monitor for C13 {
             ("cfg:keep_crlf=Some(true)".into(), f(8, 200)),
             ("cfg:strip=Some(true)".into(), f(4, 100)),
             ("sequence>1".into(), f(8, 200)),
+            ("family:cram-long".into(), f(2, 100)),
+            ("sequence>10".into(), f(2, 100)),
         ];
         p.assumptions = vec![
             "payloads reach the shell as files (`cat`), so expected bytes need no shell quoting model; literals use single quotes / quoted here-documents".into(),
